@@ -18,8 +18,9 @@ import time
 import traceback
 
 ROOT = os.path.dirname(os.path.dirname(os.path.abspath(__file__)))
-EVIDENCE_DIR = os.path.join(ROOT, "evidence")
-REPLAY_DIR = os.path.join(ROOT, "replays")
+# the overrides are for development / seeded-change runs, so that they do not overwrite the evidence of the run on /repo itself
+EVIDENCE_DIR = os.environ.get("VERIF_EVIDENCE_DIR") or os.path.join(ROOT, "evidence")
+REPLAY_DIR = os.environ.get("VERIF_REPLAY_DIR") or os.path.join(ROOT, "replays")
 KNOWN_FILE = os.path.join(ROOT, "known_findings.json")
 PY = "/venv/bin/python"
 
@@ -186,7 +187,7 @@ def replay_native(paths, timeout=600):
     if not paths:
         return {}
     env = dict(os.environ)
-    env["PYTHONPATH"] = ROOT + os.pathsep + "/repo"
+    env["PYTHONPATH"] = ROOT + os.pathsep + os.environ.get("VERIF_REPO", "/repo")
     env.pop("VERIF_SYMBOLIC", None)
     out = {}
     for i in range(0, len(paths), 50):
